@@ -7,6 +7,7 @@ import Req.Client.EarlyResponse
 import Req.Client.UploadReader
 import Req.Client.ProgressClock
 import Req.Client.SetBody
+import Req.Client.ResponseStages
 /-! Driver lanes of C17. -/
 namespace Req.Driver.L.C17
 open Req.Proto
@@ -394,7 +395,31 @@ def laneDlHops : List String → String
     | _, _ => "bad-op"
   | _ => "bad-op"
 
+/-- `c17dlstages <content decoding 0/1> <wrapper 0/1> <charset decoding 0/1> <dump 0/1> <wire size>
+<size after content decoding> <size after charset decoding>` → `last=<n|-> out=<n>`: the stack
+`handleResponseBody` builds for these options (`Stages.stackOf`), run on a wire body of the given
+size with decoders that produce bodies of the given sizes; `last` = the final argument of the
+download callback once the body has been read and closed (the observed bytes in one read, clock
+never elapsing: `Stages.reports`), `out` = the number of bytes the caller receives. -/
+def laneDlStages : List String → String
+  | [cd, w, cs, d, wire, dec, tr] =>
+    match cd.toNat?, w.toNat?, cs.toNat?, d.toNat?, wire.toNat?, dec.toNat?, tr.toNat? with
+    | some cd, some w, some cs, some d, some wire, some dec, some tr =>
+      let o : Req.Stages.Opts := ⟨cd == 1, w == 1, cs == 1, d == 1⟩
+      let c : Req.Stages.Codec := ⟨fun _ => List.replicate dec 0, fun _ => List.replicate tr 0⟩
+      let wb : Req.Stages.Bytes := List.replicate wire 0
+      let st := Req.Stages.stackOf o
+      let last := match Req.Stages.observed c st wb with
+        | none => "-"
+        | some b => match (Req.Stages.reports [⟨b.length, false, false⟩]).getLast? with
+          | some x => toString x
+          | none => "-"
+      s!"last={last} out={(Req.Stages.deliver c st wb).length}"
+    | _, _, _, _, _, _, _ => "bad-op"
+  | _ => "bad-op"
+
 def lanes : List (String × (List String → String)) := [
+  ("c17dlstages", laneDlStages),
   ("c17dlhops", laneDlHops),
   ("c17setbody", laneSetBody),
   ("c17progwt", laneProgWT),
